@@ -74,8 +74,11 @@ def dfsRun (ix : List Def) : Nat → Dfs → Dfs
 
 def namesOf (ix : List Def) : List String := (ix.map (·.name)).eraseDups
 
-/-- enough iterations for every node to be expanded once per outgoing edge plus once more. -/
-def cyFuel (ix : List Def) : Nat := (ix.length + 2) * (ix.length + 2)
+/-- a bound on the number of iterations of one DFS: (number of names + 1) × (Σ over names of
+    (out-degree + 2) + 1).  `Props/C12T.lean` proves the loop always ends with an empty stack within
+    this many iterations, so the fuel never decides an answer. -/
+def cyFuel (ix : List Def) : Nat :=
+  ((namesOf ix).length + 1) * (((namesOf ix).map (fun n => (cyDeps ix n).length + 2)).sum + 1)
 
 /-- `compute_fixture_cycles` for a given iteration order of the graph's keys. -/
 def computeCycles (ix : List Def) (roots : List String) : List Cycle :=
